@@ -143,6 +143,25 @@ def late_reply_traces(ctx, rng, n, modes):
     return traces, specs
 
 
+def stale_after_reconnect_traces(ctx, modes):
+    """Something is parked in the packet store (a zero-id packet read while an OPEN waited for its OKAY; late packets of an operation
+    that gave up) when the caller reconnects, with or without close(); the commands of the new connection return their own output only."""
+    traces, specs = [], []
+    for k in range(12):
+        for mode in modes:
+            ops = [dict(api='shell', decode=False, cmd='a%d' % k, chunks=[b'<a>'.hex()], stray_zero=(b'<stale%d>' % k).hex(), read_timeout_s=1.0),
+                   dict(api='reconnect', close_first=(k % 3 == 2)),
+                   dict(api=('shell', 'exec_out', 'streaming_shell')[k % 3], decode=False, cmd='b%d' % k, chunks=[b'<b1>'.hex(), b'<b2>'.hex()][:1 + k % 2]),
+                   dict(api='shell', decode=False, cmd='c%d' % k, chunks=[b'<c>'.hex()])]
+            if k % 2:
+                ops.insert(1, dict(api='shell', decode=False, cmd='l%d' % k, chunks=[b'<late>'.hex()], late=True, read_timeout_s=1.0))
+            spec = dict(seed=ctx.seed + k, maxdata=4096, rid=('plus', 'same')[k % 2], frag='whole', ops=ops)
+            rr = scen.run(spec, mode, stall='raise')
+            traces.append(scen.project_events(rr, spec))
+            specs.append((mode, spec))
+    return traces, specs
+
+
 def abort_then_decode_traces(ctx, modes):
     """A decode=True command fails right after a WRITE that ends in the middle of a character (the device falls silent);
     the next decode=True command on the same object (also after close/connect) must decode only what its own stream wrote."""
@@ -237,6 +256,9 @@ def body(ctx):
     t3, s3 = abort_then_decode_traces(ctx, ['sync', 'async'])
     traces += t3
     specs += s3
+    t4, s4 = stale_after_reconnect_traces(ctx, ['sync', 'async'])
+    traces += t4
+    specs += s4
     ctx.count(evaluations=big_decode(ctx, ['sync', 'async']))
     if ctx.violations:
         return
